@@ -140,7 +140,8 @@ PROPS.update({
         "table domain with six tree strategies). Port graphs, where the statement holds: c03_portgraph_single_then_many_on_single_root_sets / "
         "c03_portgraph_many_then_single_on_good_patterns - on automata that use keys of the first index root only (every set of single-root patterns) the "
         "modelled run and the modelled one-pattern matcher report the same matches of a good pattern, bindings included (a reported match is turned back into an "
-        "embedding, Proofs/PGAgree.v); outside that class refuted (D10).",
+        "embedding, Proofs/PGAgree.v); outside that class refuted (D10). Every domain: c03_recorded_keys_are_the_single_matcher_keys - the key list add_pattern records for a "
+        "pattern (Model/Scopes.v, compared with every dump) has the same elements as the keys SinglePatternMatcher requests.",
         "verified certificates (sound + complete) on the real automaton + Coq proof that run and naive matcher both equal the occurrence specification "
         "(strings) + ManyMatcher vs NaiveManyMatcher differential", ["c03", "pg03", "tab03", "pgm"]),
     "C04": aut_prop("translation_validation",
@@ -201,7 +202,7 @@ PROPS.update({
                 "consistently, also with equal characters for different variables; matrix holes filled), then along a random history of host extensions "
                 "of length <= 6 (quick) / 20 (thorough); the same from an occurrence found in a random planted host; every check is one case; "
                 "non-trivial = all of them (each involves an occurrence)",
-        "trusted_base": AUT_TB, "assumptions": AUT_ASSUME + ["port graphs: matcher-level theorems for good patterns only (c11_portgraph_single_self_good, _extension_good); refuted in general (D6)"], "timeout": 3000,
+        "trusted_base": AUT_TB, "assumptions": AUT_ASSUME + ["port graphs: matcher-level theorems for good patterns only (c11_portgraph_single_self_good, _extension_good; for the automaton c11_portgraph_matcher_{self,extension}_good and, inside any set of single-root patterns, ..._good_in_single_root_sets); refuted in general (D6)"], "timeout": 3000,
         "explanation": "Theorems c11_*: self-occurrence and preservation of occurrence under every extension step are proved on the occurrence "
                        "semantics for all patterns, hosts and histories (strings, matrices); that the occurrence is then reported by ManyMatcher and "
                        "SinglePatternMatcher at the corresponding anchor is checked on the implementation at every step of every generated history; "
